@@ -314,6 +314,11 @@ def deep_diff(impl, ref, path="", rtol=1e-12):
     try:
         a = np.asarray(impl)
         b = np.asarray(ref)
+        if a.ndim == 0 and b.ndim == 0 and a.dtype.kind in "fiub" and b.dtype.kind in "fiub":
+            # scalar leaves come straight from the YAML text: a boolean must stay a boolean, an integer an integer
+            cls = lambda k: "b" if k == "b" else ("i" if k in "iu" else "f")  # noqa: E731
+            if cls(a.dtype.kind) != cls(b.dtype.kind) and not (cls(a.dtype.kind) in "if" and cls(b.dtype.kind) in "if" and float(a) == float(b) and path.endswith(("maximum", "anteil", "2005"))):
+                return [f"{path}: environment {impl!r} ({type(impl).__name__}) reference {ref!r} ({type(ref).__name__}): type differs"]
         if a.dtype.kind in "fiub" and b.dtype.kind in "fiub":
             if a.shape != b.shape:
                 ok = False
